@@ -229,7 +229,7 @@ class Mods:
             raise AttributeError(name)
 
 
-def load(*, fake_skia=True, lex_placeholders=True, modules=MODULE_ORDER, extra_ast=None):
+def load(*, fake_skia=True, lex_placeholders=True, modules=MODULE_ORDER, extra_ast=None, merge_tuple_cmp=True):
     n = next(_load_counter)
     prefix = f"sxload{n}"
     mods = Mods(prefix)
@@ -310,6 +310,9 @@ def load(*, fake_skia=True, lex_placeholders=True, modules=MODULE_ORDER, extra_a
         if name not in mods._mods:
             _load_one(name)
 
+    if merge_tuple_cmp:
+        _merge_namedtuple_compare(mods)
+
     if lex_placeholders and "svg_path_iter" in mods._mods:
         import re
 
@@ -328,6 +331,82 @@ def load(*, fake_skia=True, lex_placeholders=True, modules=MODULE_ORDER, extra_a
         "set displays rewritten to order/equality-aware SxSet"
     )
     return mods
+
+
+def _merge_namedtuple_compare(mods):
+    """State merging for comparisons of numeric NamedTuples.
+
+    tuple.__eq__ short-circuits component by component, which forks once per
+    component on symbolic fields although every "not equal" outcome continues
+    identically.  The merged versions build one conjunction (one fork).
+    Point/Vector.almost_equals (a conjunction of two almost_equal calls) is
+    merged the same way; its equivalence with the original source function is
+    re-proved on every run by checks/c09.py (case 'lemma_merge').
+    """
+    import z3
+    from .values import SymReal, SymBool, term_of
+
+    def _sym_eq(a, b):
+        if type(b) is not type(a) and not isinstance(b, tuple):
+            return NotImplemented
+        if len(a) != len(b):
+            return False
+        if not any(isinstance(v, SymReal) for v in tuple.__iter__(a)) and not any(
+            isinstance(v, SymReal) for v in tuple.__iter__(b)
+        ):
+            return tuple.__eq__(a, b)
+        conds = []
+        for x, y in zip(tuple.__iter__(a), tuple.__iter__(b)):
+            if isinstance(x, SymReal) or isinstance(y, SymReal):
+                try:
+                    conds.append(term_of(x) == term_of(y))
+                except TypeError:
+                    return False
+            elif x != y:
+                return False
+        return SymBool(z3.And(*conds)) if conds else True
+
+    def _eq(a, b):
+        return _sym_eq(a, b)
+
+    def _ne(a, b):
+        r = _sym_eq(a, b)
+        if r is NotImplemented:
+            return r
+        if isinstance(r, SymBool):
+            return SymBool(z3.Not(r.t))
+        return not r
+
+    gt = mods._mods.get("geometric_types")
+    st = mods._mods.get("svg_transform")
+    classes = []
+    if gt is not None:
+        classes += [gt.Point, gt.Vector, gt.Rect]
+    if st is not None:
+        classes += [st.Affine2D]
+    for cls in classes:
+        cls.__eq__ = _eq
+        cls.__ne__ = _ne
+        cls.__hash__ = tuple.__hash__
+    if gt is not None:
+        for cls in (gt.Point, gt.Vector):
+            orig = cls.almost_equals
+            cls._orig_almost_equals = orig
+
+            def merged(self, other, tolerance=gt.DEFAULT_ALMOST_EQUAL_TOLERANCE, _orig=orig):
+                vals = (self.x, self.y, other.x, other.y, tolerance)
+                if not any(isinstance(v, SymReal) for v in vals):
+                    return _orig(self, other, tolerance)
+                tt = term_of(tolerance)
+                dx = term_of(self.x) - term_of(other.x)
+                dy = term_of(self.y) - term_of(other.y)
+                return SymBool(z3.And(dx <= tt, -dx <= tt, dy <= tt, -dy <= tt))
+
+            cls.almost_equals = merged
+    mods.stubs.append(
+        "==/!= of Point/Vector/Rect/Affine2D and Point/Vector.almost_equals evaluated as one conjunction "
+        "(state merging; equivalence with the source function re-proved by C09 lemma_merge)"
+    )
 
 
 def unload(mods):
